@@ -395,6 +395,8 @@ impl<'a> HavokBinaryTagFileReader<'a> {
                 HavokValueType::EMPTY => HavokValue::Integer(HavokInteger::default()),
                 HavokValueType::BYTE => HavokValue::Integer(HavokInteger::default()),
                 HavokValueType::INT => HavokValue::Integer(HavokInteger::default()),
+                HavokValueType::REAL => HavokValue::Real(0.0),
+                HavokValueType::STRING => HavokValue::String(Arc::from("")),
                 HavokValueType::OBJECT => HavokValue::ObjectReference(0),
                 _ => panic!("unimplemented {}", type_.bits()),
             }
